@@ -91,6 +91,7 @@ def blocks(tier, seed):
         for lv in ("fixed", "auto+fit"):
             out.append({"grid": g, "image": "mix", "levels": lv, "variant": seed % 3, "tier": tier})
     out.append({"pairs": True, "variant": seed % 3, "tier": tier})
+    out.append({"plural_forms": True, "variant": seed % 3, "tier": tier})
     return out
 
 
@@ -161,7 +162,17 @@ def candidates(g, tier, img):
     return out
 
 
+FORMS = ["list", "tuple", "emulsion", "generator", "iter", "map", "array-of-objects", "reversed-iterator"]
+
+
 def cases(block):
+    if block.get("plural_forms"):
+        for form in FORMS:
+            for nproc in (1, 2, 3, "auto"):
+                for n in (0, 1, 3):
+                    for lv in ("fixed", "auto+fit"):
+                        yield {"plural_forms": form, "nproc": nproc, "n": n, "levels": lv, "variant": block["variant"]}
+        return
     if block.get("pairs"):
         P = probes(block["variant"])
         for opts in ({"max_nfev": 400}, {"max_nfev": 400, "x_scale": 1.0}):
@@ -208,6 +219,53 @@ def run_pair(case, ctx):
         return
     ctx.check("C04.options-not-carried-over", type(got) is type(ref) and got.data.tobytes() == ref.data.tobytes(),
               {"fresh_options": str(ref), "options_used_before": str(got), "options_after": {k: repr(v)[:80] for k, v in shared.items()}}, tags)
+
+
+def run_plural_forms(case, ctx):
+    """refine_droplets takes an ITERABLE of candidates: whatever its container form and the number of processes, result k is the
+    refinement of candidate k (same count, same order) and every result obeys the per-candidate clauses"""
+    import droplets
+    from droplets.image_analysis import refine_droplet, refine_droplets
+    from mcx import sched
+
+    g2 = {"kind": "cart", "shape": [12, 12], "dx": [1.0, 1.0], "origin": [0.0, 0.0], "periodic": [True, False]}
+    base = {"grid": g2, "image": "affine" if case["levels"] != "fixed" else "clean", "levels": case["levels"], "variant": case["variant"]}
+    specs = [["DiffuseDroplet", 0, 1.0, "displaced"], ["DiffuseDroplet", 0, 1.0, "wrong-radius"], ["DiffuseDroplet", 0, 1.0, "truth"]][: case["n"]]
+    prepared = [prepare(dict(base, cand=sp)) for sp in specs] or [prepare(dict(base, cand=["DiffuseDroplet", 0, 1.0, "truth"]))]
+    field, args = prepared[0][0], prepared[0][2]
+    cands = [p[1] for p in prepared][: case["n"]]
+    tags = {"form": case["plural_forms"], "nproc": str(case["nproc"]), "n": case["n"]}
+    try:
+        singles = [refine_droplet(field, c.copy(), **args) for c in cands]
+        fresh = [c.copy() for c in cands]
+        form = case["plural_forms"]
+        if form == "tuple":
+            arg = tuple(fresh)
+        elif form == "emulsion":
+            arg = droplets.Emulsion(fresh)
+        elif form == "generator":
+            arg = (c for c in fresh)
+        elif form == "iter":
+            arg = iter(fresh)
+        elif form == "map":
+            arg = map(lambda c: c, fresh)
+        elif form == "array-of-objects":
+            arg = np.empty(len(fresh), dtype=object)
+            arg[:] = fresh
+        elif form == "reversed-iterator":
+            arg = reversed(fresh[::-1])
+        else:
+            arg = fresh
+        if case["nproc"] != 1:
+            sched.install()
+        got = refine_droplets(field, arg, num_processes=case["nproc"], **args)
+        ctx.op(2 * len(cands))
+    except Exception as e:  # noqa
+        ctx.check("C04.plural-agrees", False, {"exc": repr(e)[:300]}, tags)
+        return
+    ctx.count("plural-calls-with-container-forms")
+    ok = len(got) == len(singles) and all(type(a) is type(b) and a.data.tobytes() == b.data.tobytes() for a, b in zip(got, singles))
+    ctx.check("C04.plural-agrees", ok, {"one_by_one": [str(d) for d in singles], "refine_droplets": [str(d) for d in got]}, tags)
 
 
 def prepare(case):
@@ -317,6 +375,8 @@ def run_case(case, ctx):
 
     if "pair" in case:
         return run_pair(case, ctx)
+    if "plural_forms" in case:
+        return run_plural_forms(case, ctx)
     field, cand, args, loc = prepare(case)
     g, grid, kind, dim, c, R, w, img, clsname, modes, cw, state, tags, a, b, data, cls, cand0, lv = (loc[k] for k in (
         "g", "grid", "kind", "dim", "c", "R", "w", "img", "clsname", "modes", "cw", "state", "tags", "a", "b", "data", "cls", "cand0", "lv"))
@@ -442,5 +502,5 @@ def cons_idx(grid):
 
 
 def expected_positive(tier):
-    return ["C04.plural-agrees", "C04.options-not-carried-over", "C04.cost", "C04.deviation", "C04.class", "C04.bounds", "C04.constrained", "C04.wrapped", "C04.image-unmodified", "C04.fixpoint", "non-zero-initial-cost", "fit-improved",
+    return ["C04.plural-agrees", "plural-calls-with-container-forms", "C04.options-not-carried-over", "C04.cost", "C04.deviation", "C04.class", "C04.bounds", "C04.constrained", "C04.wrapped", "C04.image-unmodified", "C04.fixpoint", "non-zero-initial-cost", "fit-improved",
             "constrained-coordinates", "candidate-outside-box", "candidate-covering-no-cell", "perturbed-candidate-without-modes", "fit-region-is-the-whole-grid"]
